@@ -6,7 +6,7 @@ CFG = {
         "harness_timeout": 1500,
         "theorems": ["C10_no_send_on_closed", "C10_closed_only_after_cancel", "C10_cancel_closes",
                      "C10_delivered_when_live", "C10_exactly_once_in_order", "C10_others_unaffected",
-                     "C10_pipe_terminates", "C10_pipe_progress", "C10_pipe_close_needs_cancel",
+                     "C10_pipe_terminates", "C10_pipe_progress", "C10_pipe_shape_invariant", "C10_pipe_close_needs_cancel",
                      "C10_pullid_ends_on_remove", "C10_pullid_v0_refuted"],
         "level_text": "Theorems (Props/C10.v, closed under the global context) over a transition-system model of internal/minibus/bus.go and of the forwarding goroutines of Value.Pull / Collection.Pull / PullID / DropExcess / mergeCollectionExcess, for ALL schedules (any number of listeners, senders, cancels, consumers that stop receiving): no send ever targets a closed channel; a channel closes only after its cancel; after a cancel a measure that no step increases and every step of the subscription's goroutines decreases is positive only while one of them is enabled, and is zero exactly when the channel is closed; after the close every schedule of the forwarding chain is bounded by a measure and ends with all goroutines gone; events reach every listener registered before and not cancelled until the end of a Send, and every listener's log is per-sender strictly ordered (so: in order, never twice) and holds only events of calls made; a sender only ever waits for a cancelled listener while that listener's stop holds the lock; PullID ends on REMOVE and ends its inner Pull (refuted for the code before fix 728882a). The model is tied to the code on every run by ~4000 scripted executions of the real code forced through the yield points of bus.go one action at a time (all observations compared with the set of model states reachable under every interleaving of the unparked goroutines) plus free-running stress with cancels injected at the yield points, judged by an oracle on the recorded run.",
         "level_note": "Proved about the hand-written model, not about Go: sync.RWMutex (writer-preferring), unbuffered channel rendezvous, select and context cancellation are taken at their textbook semantics; the Go scheduler is not modelled, so liveness is stated as variant + enabledness and becomes 'eventually' only under weak fairness; real-time bounds (close seen within 3 s, Value.Set's 5 s timeout) are measured by the harness, not proved; the link between the two models (the listener channel of Bus.v is the source of Pipe.v) is by construction of the models, not a theorem; filters/equivalence in the forwarders are not modelled (they only skip a send).",
